@@ -7,6 +7,7 @@ import (
 	"go/token"
 	"go/types"
 	"math/big"
+	"strings"
 
 	"golang.org/x/tools/go/ssa"
 )
@@ -108,7 +109,7 @@ func (in *Interp) abortf(kind, format string, a ...any) {
 func (in *Interp) unsupported(format string, a ...any) {
 	where := ""
 	if in.cur != nil {
-		where = " in " + in.cur.fn.String()
+		where = " in " + strings.Join(in.stack(), " <- ")
 	}
 	panic(&abort{kind: "unsupported", msg: fmt.Sprintf(format, a...) + where})
 }
